@@ -31,13 +31,13 @@ def reviewed : List ((String × String × String × Nat) × Class × String) := 
   (("data.rs", "dependency_from_string_if", "index", 1), Class.guarded, "index/Option established by the preceding lines (parent_index/index/context_id set in finalize/add_*; filename.parent(); relpath/srcdir/filename set by init_module/load_all; slices after starts_with/first-byte tests; constant version string)"),
   (("data.rs", "deserialize_version_checked", "unwrap", 1), Class.guarded, "index/Option established by the preceding lines (parent_index/index/context_id set in finalize/add_*; filename.parent(); relpath/srcdir/filename set by init_module/load_all; slices after starts_with/first-byte tests; constant version string)"),
   (("data.rs", "get_defaults", "unwrap", 7), Class.guarded, "index/Option established by the preceding lines (parent_index/index/context_id set in finalize/add_*; filename.parent(); relpath/srcdir/filename set by init_module/load_all; slices after starts_with/first-byte tests; constant version string)"),
-  (("data.rs", "init_module", "unwrap", 3), Class.guarded, "index/Option established by the preceding lines (parent_index/index/context_id set in finalize/add_*; filename.parent(); relpath/srcdir/filename set by init_module/load_all; slices after starts_with/first-byte tests; constant version string)"),
+  (("data.rs", "init_module", "unwrap", 1), Class.guarded, "`filename.parent()` of a lazefile path that was just read (it has a file name, hence a parent); the two unwraps on `strip_prefix(import_root)` were a real panic for a file included from outside its import root (33edd4d)"),
   (("data.rs", "load", "index", 1), Class.guarded, "index/Option established by the preceding lines (parent_index/index/context_id set in finalize/add_*; filename.parent(); relpath/srcdir/filename set by init_module/load_all; slices after starts_with/first-byte tests; constant version string)"),
   (("data.rs", "load", "unwrap", 3), Class.guarded, "index/Option established by the preceding lines (parent_index/index/context_id set in finalize/add_*; filename.parent(); relpath/srcdir/filename set by init_module/load_all; slices after starts_with/first-byte tests; constant version string)"),
   (("data.rs", "new_import", "unwrap", 1), Class.outOfScope, "subcommands/features outside the properties: completion, imports, new, manpages"),
   (("data.rs", "process_removes", "index", 2), Class.guarded, "index/Option established by the preceding lines (parent_index/index/context_id set in finalize/add_*; filename.parent(); relpath/srcdir/filename set by init_module/load_all; slices after starts_with/first-byte tests; constant version string)"),
   (("data/import/download.rs", "handle", "unwrap", 5), Class.outOfScope, "subcommands/features outside the properties: completion, imports, new, manpages"),
-  (("data/import/local.rs", "handle", "unwrap", 2), Class.guarded, "`path.parent()` of build_dir/imports/<x> (always has a parent) and `read_link` right after `is_symlink`; the two input-dependent unwraps (file_name of the import path, diff_utf8_paths) were real panics found by the C15 campaign and are errors since 611d4e8"),
+  (("data/import/local.rs", "handle", "unwrap", 1), Class.guarded, "`read_link` right after `is_symlink`; the three input-dependent unwraps (file_name of the import path, diff_utf8_paths, parent of the link path with an absolute dldir) were real panics found by the C15 campaign and are errors since 611d4e8 / 33edd4d"),
   (("download.rs", "patch", "unwrap", 4), Class.builderComplete, "derive_builder .build().unwrap() with every required field set in the same expression; Option fields set by the loader"),
   (("download.rs", "render", "unwrap", 2), Class.builderComplete, "derive_builder .build().unwrap() with every required field set in the same expression; Option fields set by the loader"),
   (("download.rs", "srcdir", "unwrap", 1), Class.guarded, "index/Option established by the preceding lines (parent_index/index/context_id set in finalize/add_*; filename.parent(); relpath/srcdir/filename set by init_module/load_all; slices after starts_with/first-byte tests; constant version string)"),
